@@ -17,6 +17,9 @@ import traceback
 import faulthandler
 
 
+_IN_CHILD = False
+
+
 def _write_all(fd, data: bytes):
     view = memoryview(data)
     while view:
@@ -43,18 +46,25 @@ def _read_exact(fd, n, deadline=None):
 
 def fork_call(fn, arg, timeout: float):
     """Run fn(arg) in a forked child; returns its (picklable) result or a harness_error dict."""
+    global _IN_CHILD
     rfd, wfd = os.pipe()
     sys.stdout.flush()
     sys.stderr.flush()
+    if _IN_CHILD:
+        # nested use (a run that forks its phases): the watchdog thread of faulthandler must not be alive across fork()
+        faulthandler.cancel_dump_traceback_later()
     pid = os.fork()
     if pid == 0:
         code = 0
+        nested = _IN_CHILD
+        _IN_CHILD = True
         try:
             os.close(rfd)
             faulthandler.enable()
             if not os.environ.get('VERIF_CHILD_STDOUT'):
                 sys.stdout = open(os.devnull, 'w')  # the library prints diagnostics; results travel over the pipe
-            faulthandler.dump_traceback_later(max(1.0, timeout * 0.9), exit=False)
+            if not nested:
+                faulthandler.dump_traceback_later(max(1.0, timeout * 0.9), exit=False)
             try:
                 res = fn(arg)
             except BaseException:
